@@ -56,6 +56,10 @@ func main() {
 		cmdCrash(fs, os.Args[2:])
 	case "reclaim":
 		cmdReclaim(fs, os.Args[2:])
+	case "crashkv":
+		cmdCrashKv(fs, os.Args[2:])
+	case "crashsimple":
+		cmdCrashSimple(fs, os.Args[2:])
 	default:
 		fmt.Fprintf(os.Stderr, "harness: unknown subcommand %q\n", sub)
 		os.Exit(2)
